@@ -243,6 +243,13 @@ class FNumpy:
     def linspace(self, a, b, n):
         return Grid(a, b, n)
 
+    def arange(self, start, stop=None, step=1):
+        # numpy: ceil((stop - start)/step) points start + k*step, the quotient evaluated in double precision
+        if not any(hasattr(x, "e") for x in (start, stop, step)):
+            return self._np.arange(start, stop, step)
+        n = self.ceil((stop - start) / step)
+        return Grid(start, start + (n - 1) * step, n)
+
 
 def model_double(model, var):
     """Extract a python float from an FP model value (bit-exact)"""
